@@ -3,7 +3,7 @@
 # patch, (b) the demonstration fails with it, (c) the demonstration passes without it.
 # Works in ONE scratch worktree outside /repo and /verif and removes it at the end.
 set -u
-W=/tmp/seedconfirm
+W=${CONFIRM_W:-/tmp/seedconfirm}
 OUT=${CONFIRM_OUT:-/verif/selftest/confirm_seeded.log}
 export CARGO_NET_OFFLINE=true CARGO_TERM_COLOR=never
 git -C /repo worktree remove --force $W 2>/dev/null
@@ -14,6 +14,7 @@ only="${1:-}"
 for d in /verif/seeded/*/; do
   id=$(basename $d)
   [ -n "$only" ] && [ "$only" != "$id" ] && continue
+  [ -n "${ONLY_PROPS:-}" ] && ! echo " $ONLY_PROPS " | grep -q " ${id%%-*} " && continue
   [ -f $d/patch.diff ] || continue
   [ -n "${ONLY_ROUND2:-}" ] && [ ! -f $d/.round ] && continue
   [ -n "${ONLY_ROUND:-}" ] && [ "$(cat $d/.round 2>/dev/null)" != "$ONLY_ROUND" ] && continue
